@@ -1,6 +1,7 @@
 package vrt
 
 import (
+	"os"
 	"fmt"
 	"hash/fnv"
 	"reflect"
@@ -317,6 +318,16 @@ func SortedMap(m interface{}) []KV {
 		out = append(out, KV{it.Key().Interface(), it.Value().Interface()})
 	}
 	sort.Slice(out, func(i, j int) bool { return fmt.Sprint(out[i].K) < fmt.Sprint(out[j].K) })
+	if mapOrderDescending {
+		// the second of the two iteration orders the harness runs every operation under: code whose result depends on
+		// the (unspecified) order of a map range gives different answers in the two
+		for i, j := 0, len(out)-1; i < j; i, j = i+1, j-1 {
+			out[i], out[j] = out[j], out[i]
+		}
+	}
 	charge(int64(len(out)))
 	return out
 }
+
+// mapOrderDescending is read once at start-up (package initialisers of the library range over maps too).
+var mapOrderDescending = os.Getenv("VRT_MAPORDER") == "desc"
